@@ -224,6 +224,60 @@ def pack_to_parquet_schedules(chk, r, schedulers, root):
             chk.violation(f"schedule/pack_to_parquet-raises-{common.err_kind(e)}/{variant}", dict(api="pack_partitions_to_parquet", error=repr(e)[:300])); return
 
 
+def concurrent_pack_calls(chk, r, root, ncallers):
+    """several callers write the same Dask frame to different datasets at the same time, all with the same `{uuid}` template for the
+    temporary area (what the field is for): each dataset must be what the call produces alone"""
+    import dask
+    import dask.dataframe as dd
+    from spatialpandas import GeoDataFrame
+    from .c19 import snapshot
+    pts = [[r.randint(0, 64), r.randint(0, 64)] for _ in range(90)]
+    df = GeoDataFrame({"a": list(range(len(pts))), "geometry": geo.make_array("point", pts, "float64")})
+    ddf = dd.from_pandas(df, npartitions=3)
+    scratch = os.path.join(root, "shared_scratch")
+    tf = os.path.join(scratch, "{uuid}", "part.{partition}")
+
+    def one(tag, delayed, barrier=None, out=None):
+        work = os.path.join(root, f"caller_{tag}")
+        shutil.rmtree(work, ignore_errors=True); os.makedirs(work)
+        rr = __import__("random").Random(hash(tag) % 1000)
+        fs = packfs.WrapFS(delay=(lambda k, name: rr.choice((0, 0.001, 0.004)) if name in ("open", "rm", "mv", "makedirs", "ls") else 0) if delayed else None)
+        try:
+            if barrier is not None:
+                barrier.wait()
+            ddf.pack_partitions_to_parquet(os.path.join(work, "out.parq"), filesystem=fs, npartitions=5, p=6, tempdir_format=tf,
+                                            _retry_args=dict(wait_fixed=20, stop_max_attempt_number=6))
+            snap = snapshot(work, os.path.join(work, "out.parq"))
+        except Exception as e:  # noqa: BLE001
+            snap = {"raised": repr(e)[:300]}
+        shutil.rmtree(work, ignore_errors=True)
+        if out is not None:
+            out[tag] = snap
+        return snap
+    with dask.config.set(scheduler="synchronous"):
+        os.makedirs(scratch, exist_ok=True)
+        ref = one("ref", False)
+        chk.evaluated()
+        if "raised" in ref:
+            chk.violation("schedule/concurrent-pack_to_parquet/raises-alone", dict(api="pack_partitions_to_parquet", error=ref["raised"])); return
+        out = {}
+        barrier = threading.Barrier(ncallers)
+        ts = [threading.Thread(target=one, args=(f"t{i}", True, barrier, out)) for i in range(ncallers)]
+        [t.start() for t in ts]; [t.join() for t in ts]
+    for i in range(ncallers):
+        chk.evaluated()
+        got = out.get(f"t{i}")
+        if got != ref:
+            what = "raises" if got is None or "raised" in got else "dataset-differs-from-the-call-alone"
+            chk.violation(f"schedule/concurrent-pack_to_parquet/{what}", dict(api="pack_partitions_to_parquet", callers=ncallers, tempdir_format="<scratch>/{uuid}/part.{partition}",
+                                                                              got=str(got)[:400], alone=str(ref)[:200])); return
+    left = os.listdir(scratch)
+    if left:
+        chk.violation("schedule/concurrent-pack_to_parquet/leftover-in-scratch", dict(api="pack_partitions_to_parquet", callers=ncallers, leftovers=left[:5])); return
+    chk.nontriv(hash(("concurrent-pack", ncallers)))
+    chk.count("concurrent-pack-callers", ncallers)
+
+
 def run_cases(chk, tier):
     import numba
     r = common.rng(PROP)
@@ -267,6 +321,8 @@ def run_cases(chk, tier):
         scheds = [("threads", 2), ("threads", 8)] if tier == "quick" else [("threads", 1), ("threads", 2), ("threads", 4), ("threads", 16), ("synchronous", 1)]
         dask_ops(chk, r, scheds)
         pack_to_parquet_schedules(chk, r, [("threads", 8)] if tier == "quick" else [("threads", 2), ("threads", 8), ("threads", 16)], root)
+        for nc in ((2,) if tier == "quick" else (2, 3, 5)):
+            concurrent_pack_calls(chk, r, root, nc)
         chk.sample(dict(kernels=[n for n, _ in ops][:6], numba_threads=[1, 2, 4, 16], dask=scheds, client_threads=[2, 8]), cap=2)
     finally:
         sys.setswitchinterval(old_switch)
